@@ -423,6 +423,9 @@ func TestVerif_C11_policy(t *testing.T) {
 			s.Count("direct")
 		}
 		prevCl, prevPs, prevLine0, prevScen, prevAlias = cl, ps, line0, scen, aliasPs
+		for _, b := range c11DegBuckets(ps) {
+			s.Count(b)
+		}
 		for _, p := range ps {
 			s.Count("pol:" + p.kind)
 			if p.kind != "nil" && p.kind != "no" && p.kind != "max" {
